@@ -25,7 +25,7 @@ DEFS := -DPACKAGE_NAME=\"yara\" -DPACKAGE_TARNAME=\"yara\" -DPACKAGE_VERSION=\"4
  -DHAVE_SCAN_PROC_IMPL=1 -D_GNU_SOURCE -DUSE_LINUX_PROC -DDOTNET_MODULE -DHASH_MODULE \
  -DMACHO_MODULE -DDEX_MODULE -DBUCKETS_128=1 -DCHECKSUM_1B=1
 
-SAN   := -fsanitize=address,undefined -fno-sanitize=alignment,nonnull-attribute,pointer-overflow -fno-sanitize-recover=undefined -fsanitize-recover=null
+SAN   := -fsanitize=address,undefined -fno-sanitize=alignment,nonnull-attribute,pointer-overflow -fsanitize-recover=undefined
 OPT   := -O1 -g -fno-omit-frame-pointer -fno-optimize-sibling-calls
 EXTRA :=
 COVTU :=
@@ -66,6 +66,10 @@ LDLIBS := -lcrypto -lm -lpthread
 
 ENGINES := $(patsubst $(VERIF)engines/%.cc,%,$(wildcard $(VERIF)engines/*.cc))
 
+# objects are rebuilt when the flags they were compiled with change
+FLAGS_SIG := $(YCFLAGS) $(COV) $(CXXFLAGS)
+$(shell mkdir -p $(B); echo '$(subst ','\'',$(FLAGS_SIG))' | cmp -s - $(B)/flags.sig || echo '$(subst ','\'',$(FLAGS_SIG))' > $(B)/flags.sig)
+
 .PHONY: lib engines setup clean all
 .SECONDARY:
 all: engines
@@ -87,16 +91,16 @@ $(B)/gen/%.c: $(REPO)/libyara/%.l $(REPO)/libyara/%.c $(VERIF)tools/gen.sh
 	@sh $(VERIF)tools/gen.sh l $(REPO)/libyara/$* $(B)/gen/$*
 GEN_C := $(patsubst %,$(B)/gen/%.c,$(GEN))
 
-$(B)/obj/gen/%.o: $(B)/gen/%.c | $(GEN_C)
+$(B)/obj/gen/%.o: $(B)/gen/%.c $(B)/flags.sig | $(GEN_C)
 	@mkdir -p $(dir $@)
 	$(CC) $(YCFLAGS) -I$(REPO)/libyara -MMD -MP -c -o $@ $<
 
-$(B)/obj/%.o: $(REPO)/%.c | $(GEN_C)
+$(B)/obj/%.o: $(REPO)/%.c $(B)/flags.sig | $(GEN_C)
 	@mkdir -p $(dir $@)
 	$(CC) $(YCFLAGS) $(call cov_flag,$<) -MMD -MP -c -o $@ $<
 
 # compiler.c reaches yr_arena_create through the simulator (C19 capacity seam)
-$(B)/obj/libyara/compiler.o: $(REPO)/libyara/compiler.c | $(GEN_C)
+$(B)/obj/libyara/compiler.o: $(REPO)/libyara/compiler.c $(B)/flags.sig | $(GEN_C)
 	@mkdir -p $(dir $@)
 	$(CC) $(YCFLAGS) -MMD -MP -c -o $@.tmp.o $<
 	@mv $@.tmp.d $(B)/obj/libyara/compiler.d 2>/dev/null || true
@@ -104,10 +108,10 @@ $(B)/obj/libyara/compiler.o: $(REPO)/libyara/compiler.c | $(GEN_C)
 	@rm -f $@.tmp.o
 
 # cli mains get distinct names so that one engine can host both
-$(B)/obj/cli/yara.o: $(REPO)/cli/yara.c | $(GEN_C)
+$(B)/obj/cli/yara.o: $(REPO)/cli/yara.c $(B)/flags.sig | $(GEN_C)
 	@mkdir -p $(dir $@)
 	$(CC) $(YCFLAGS) $(COV) -Dmain=yara_cli_main -MMD -MP -c -o $@ $<
-$(B)/obj/cli/yarac.o: $(REPO)/cli/yarac.c | $(GEN_C)
+$(B)/obj/cli/yarac.o: $(REPO)/cli/yarac.c $(B)/flags.sig | $(GEN_C)
 	@mkdir -p $(dir $@)
 	$(CC) $(YCFLAGS) -Dmain=yarac_cli_main -MMD -MP -c -o $@ $<
 
@@ -122,11 +126,11 @@ $(B)/cli_all.o: $(CLI_O) $(VERIF)tools/climap.txt $(VERIF)tools/cli_localize.txt
 	@rm -f $@.tmp
 
 # ---- simulator + engines ---------------------------------------------------
-$(B)/sim/%.o: $(VERIF)sim/%.cc $(wildcard $(VERIF)sim/*.h)
+$(B)/sim/%.o: $(VERIF)sim/%.cc $(wildcard $(VERIF)sim/*.h) $(B)/flags.sig
 	@mkdir -p $(dir $@)
 	$(CXX) $(CXXFLAGS) -c -o $@ $<
 
-$(B)/eng/%.o: $(VERIF)engines/%.cc $(wildcard $(VERIF)sim/*.h) $(wildcard $(VERIF)engines/*.h)
+$(B)/eng/%.o: $(VERIF)engines/%.cc $(wildcard $(VERIF)sim/*.h) $(wildcard $(VERIF)engines/*.h) $(B)/flags.sig
 	@mkdir -p $(dir $@)
 	$(CXX) $(CXXFLAGS) -I$(VERIF)engines -c -o $@ $<
 
